@@ -1,1 +1,1 @@
-"""Machine models / native harnesses used as differential partners by the backend properties."""
+"""Machine models used as oracles (independent of xdsl.interpreters)."""
